@@ -416,11 +416,40 @@ func genTree(rt *rapid.T, label string, depth int, maxStr int) Node {
 		return n
 	}
 	n := Node{IsList: true}
+	if kind == 9 && rapid.IntRange(0, 3).Draw(rt, label+".wide") == 0 {
+		// WIDE list: many siblings, most of them lists themselves (counts around powers of two)
+		k := rapid.SampledFrom([]int{31, 32, 33, 63, 64, 65, 100, 127, 128, 129, 255, 256, 257, 300}).Draw(rt, label+".width")
+		shape := rapid.IntRange(0, 2).Draw(rt, label+".wshape")
+		for i := 0; i < k; i++ {
+			switch {
+			case shape == 0 || (shape == 2 && i%2 == 0):
+				n.Items = append(n.Items, Node{IsList: true})
+			case shape == 1:
+				n.Items = append(n.Items, Node{IsList: true, Items: []Node{{Hex: "01"}}})
+			default:
+				n.Items = append(n.Items, Node{Hex: "7f"})
+			}
+		}
+		return n
+	}
 	k := rapid.IntRange(0, 5).Draw(rt, label+".n")
 	for i := 0; i < k; i++ {
 		n.Items = append(n.Items, genTree(rt, fmt.Sprintf("%s.%d", label, i), depth-1, maxStr))
 	}
 	return n
+}
+
+func maxWidth(it rlpref.Item) int {
+	if !it.IsList {
+		return 0
+	}
+	w := len(it.List)
+	for _, c := range it.List {
+		if x := maxWidth(c); x > w {
+			w = x
+		}
+	}
+	return w
 }
 
 func treeStats(it rlpref.Item) (nested bool, longStr bool, boundary bool) {
@@ -601,6 +630,9 @@ func TestCheck(t *testing.T) {
 		}
 		if rlpref.Depth(it) >= 4 {
 			cl = append(cl, "tree:depth>=4")
+		}
+		if maxWidth(it) >= 64 {
+			cl = append(cl, "tree:list-with>=64-children")
 		}
 		cpool.Offer(c)
 		kTree.Check(rt, c, nested || long || boundary, cl...)
